@@ -16,6 +16,8 @@ by harness/c14.cpp):
 repaired in /repo commit b6cf5c9; they are now proved at full strength.)
 -/
 import Osmium.Lemmas.Escape
+import Osmium.Generated.Src
+import Osmium.Lemmas.SrcTieUtf8
 
 namespace Osmium.C14
 
@@ -198,5 +200,45 @@ theorem truncated_codepoint_throws (s : List Nat) (hs : ScalarStr s) (c k : Nat)
     rw [hl]
     simp only [List.length_cons, List.length_take] at hk2 ⊢
     omega
+
+/-! ## Source ties: translated C++ = model
+
+`tools/cxx2lean.py` regenerates `Osmium/Generated/Src.lean` from /repo's source on every run; the theorems below
+state that the TRANSLATED function is the model function the theorems above are about. -/
+section SrcTies
+open Osmium.Generated Osmium.CxxSem
+
+/-- `io::detail::next_utf8_codepoint(&begin, end)` (io/detail/string_util.hpp; with its `utf8_sequence_length`),
+    called as its callers call it (`end = begin + strlen(begin)`: the array is `s ++ 0 :: t`, `*begin` the index `i`,
+    `end` the index `s.length`), for EVERY byte string and start position: the code point and the new `*begin` are the
+    model's `Utf8.next` on the suffix, an invalid lead byte is `std::runtime_error`, a truncated sequence
+    `std::out_of_range` (both with `*begin` left alone), and the execution has no undefined behaviour — a continuation
+    byte is only read after the distance check, so never behind the NUL (the model's `.oob` outcome does not occur). -/
+theorem src_tie_next_utf8_codepoint (s t : List UInt8) (i : Nat) (hi : i ≤ s.length) :
+    Src.StringUtil.next_utf8_codepoint (s ++ 0 :: t) i s.length =
+      (match Utf8.next (s.drop i) with
+       | .ok (cp, n) => .normal ((i + n : Nat) : Int) (cp : Int)
+       | .error .invalid => .thrown "std::runtime_error" (i : Int)
+       | .error .incomplete => .thrown "std::out_of_range" (i : Int)
+       | .error .oob => .nofuel) ∧
+    Src.StringUtil.next_utf8_codepoint_defined (s ++ 0 :: t) i s.length = true ∧
+    Utf8.next (s.drop i) ≠ .error .oob := by
+  obtain ⟨h1, h2, h3⟩ := SrcTie.Utf8T.src_tie_next_utf8_codepoint_main s t i hi
+  refine ⟨?_, h2, h3⟩
+  rw [h1]
+  cases Utf8.next (s.drop i) with
+  | ok p => rfl
+  | error e => cases e <;> rfl
+
+/-- `utf8_sequence_length` = `seqLen` on every byte -/
+theorem src_tie_utf8_sequence_length (n : Nat) (h : n < 256) :
+    Src.StringUtil.utf8_sequence_length (n : Int) = ((Utf8.seqLen n : Nat) : Int) :=
+  (SrcTie.Utf8T.src_tie_utf8_sequence_length n h).1
+
+-- the translated decoder runs: "€" (e2 82 ac) is U+20AC, three bytes; a lone e2 is truncated
+example : Src.StringUtil.next_utf8_codepoint ([0xe2, 0x82, 0xac] ++ 0 :: []) 0 3 = .normal 3 0x20ac := by decide +kernel
+example : Src.StringUtil.next_utf8_codepoint ([0xe2] ++ 0 :: []) 0 1 = .thrown "std::out_of_range" 0 := by decide +kernel
+
+end SrcTies
 
 end Osmium.C14
